@@ -2,9 +2,54 @@
 from native import selftest_refinterp as ST
 from native.bounded._common import run_sections
 
-BOUND = "20 complex embedding/polynomial circuits in complex-lse-sum + 6 real circuits (x4 thorough), flags rotating"
+BOUND = "20 complex embedding/polynomial circuits in complex-lse-sum + 6 real circuits (x4 thorough), flags rotating; conjugates of products of a real- and a complex-parameter circuit (both orders, and complex x complex; 2 unit pairs x 4 flag settings)"
 RULE = "one case = (circuit index, semiring, fold, optimize)"
 
 
 def run(tier, seed):
-    return run_sections("C07", [ST.section_f], {"F", "F-operand", "F-symbolic"}, BOUND, RULE, tier, seed)
+    res = run_sections("C07", [ST.section_f], {"F", "F-operand", "F-symbolic"}, BOUND, RULE, tier, seed)
+    _mixed_products(res, tier, seed)
+    return res
+
+
+def _mixed_products(res, tier, seed):
+    """conjugate of a PRODUCT of a real-parameter and a complex-parameter circuit (both orders) and of two complex ones: the parameters of the
+    product mix real and complex tensors, and the conjugation must still be applied"""
+    import numpy as np
+    import cirkit.symbolic.functional as SF
+    from cirkit.symbolic.circuit import Circuit
+    from cirkit.symbolic.dtypes import DataType
+    from cirkit.symbolic.initializers import NormalInitializer
+    from cirkit.symbolic.layers import EmbeddingLayer, HadamardLayer, SumLayer
+    from cirkit.symbolic.parameters import Parameter, TensorParameter
+    from cirkit.utils.scope import Scope
+    from native import bridge, gen
+    from native.bounded._common import Checker, FLAGS
+    from native.refinterp import ParamStore, eval_circuit
+    ck = Checker("C07", BOUND, RULE, tier, seed)
+    ck.res = res
+
+    def circ(K, dtype):
+        f = lambda shape: Parameter.from_input(TensorParameter(*shape, initializer=NormalInitializer(), dtype=dtype))
+        ins = [EmbeddingLayer(Scope([v]), K, num_states=3, weight_factory=f) for v in (0, 2)]
+        h = HadamardLayer(K, arity=2)
+        s = SumLayer(K, 1, arity=1, weight_factory=f)
+        return Circuit(ins + [h, s], {h: ins, s: [h]}, [s])
+    n = 0
+    for K1, K2 in ((2, 3), (1, 2)):
+        for d1, d2 in ((DataType.REAL, DataType.COMPLEX), (DataType.COMPLEX, DataType.REAL), (DataType.COMPLEX, DataType.COMPLEX)):
+            for fold, opt in FLAGS:
+                n += 1
+                case = {"section": "mixed_product", "units": [K1, K2], "dtypes": [d1.name, d2.name], "fold": fold, "optimize": opt}
+
+                def go():
+                    m = SF.multiply(circ(K1, d1), circ(K2, d2))
+                    cm = SF.conjugate(m)
+                    ctx, tc = bridge.compile_circuit(cm, semiring="complex-lse-sum", fold=fold, optimize=opt)
+                    store = ParamStore(0)
+                    bridge.sync_store_from_compiled(ctx, [cm], store)
+                    x = gen.gen_inputs(m, 4, 60 + n)
+                    ref = np.conj(eval_circuit(m, x, store))
+                    ck.true("reference_is_genuinely_complex", case, bool(np.any(np.abs(ref.imag) > 1e-9)), "the product evaluates to a real number", nontrivial=False)
+                    ck.eq("conjugate_of_a_mixed_product", case, bridge.eval_compiled(tc, x, "complex-lse-sum"), ref, rtol=1e-7)
+                ck.guarded("mixed_product", case, go)
